@@ -67,6 +67,11 @@ fn spellings(t: i64) -> Vec<(&'static str, Value)> {
         v.push(("rfc3339 fractional .750 +01:00", json!(iso(t, 60, ".750"))));
         v.push(("rfc3339 fractional .999999", json!(iso(t, 0, ".999999"))));
     }
+    if t.rem_euclid(86400) == 0 && (0..=253402300799).contains(&t) {
+        // a bare date denotes midnight UTC of that day on every path
+        let (y, mo, d, _, _, _) = civil(t);
+        v.push(("date only", json!(format!("{y:04}-{mo:02}-{d:02}"))));
+    }
     v.push(("float seconds .7", json!(t as f64 + 0.7)));
     if let Some(ms) = t.checked_mul(1000) {
         v.push(("int milliseconds +700", json!(ms + 700)));
@@ -159,7 +164,9 @@ pub fn check(tier: &str) -> i32 {
         vec![("UTC".into(), "Mon".into()), ("UTC".into(), "Sun".into()), ("Europe/Amsterdam".into(), "Mon".into()), ("Europe/Amsterdam".into(), "Sun".into()), ("Asia/Kolkata".into(), "Mon".into()), ("Asia/Kolkata".into(), "Sun".into()), ("Asia/Kathmandu".into(), "Sun".into())]
     };
     // (dataset name, instants, flush?)
-    let sets: Vec<(&str, Vec<i64>, bool)> = vec![("wide/memory", wide.clone(), false), ("narrow/memory", narrow.clone(), false), ("narrow/flushed", narrow.clone(), true)];
+    // days around New Year (ISO week-year differs from the calendar year), a leap day and year ends
+    let newyear: Vec<i64> = vec![1_735_516_800, 1_735_430_400, 1_735_689_600, 1_672_574_400, 1_609_459_200, 1_609_372_800, 1_709_164_800, 1_704_067_199, 1_704_067_200];
+    let sets: Vec<(&str, Vec<i64>, bool)> = vec![("wide/memory", wide.clone(), false), ("narrow/memory", narrow.clone(), false), ("narrow/flushed", narrow.clone(), true), ("newyear/memory", newyear.clone(), false)];
     let ops6 = ["=", "!=", "<", "<=", ">", ">="];
     let grans = ["HOUR", "DAY", "WEEK", "MONTH", "YEAR"];
     let work: Vec<(usize, usize)> = (0..cfgs.len()).flat_map(|c| (0..sets.len()).map(move |s| (c, s))).collect();
@@ -196,7 +203,16 @@ pub fn check(tier: &str) -> i32 {
                 qs.push((format!("where|{pt}|{op}|int milliseconds +700"), format!("QUERY z WHERE d {op} {}", pt * 1000 + 700)));
             }
         }
-        if sname.starts_with("narrow") {
+        // the `date` field: bare-date literals on the WHERE and SINCE paths
+        for day in if sname.starts_with("narrow") { vec![1_700_006_400i64, 1_699_920_000] } else { vec![0i64, 86400, 1_699_920_000] } {
+            let (y, mo, d, _, _, _) = civil(day);
+            let lit = format!("{y:04}-{mo:02}-{d:02}");
+            for op in ["=", "<", ">="] {
+                qs.push((format!("wheredd|{day}|{op}|date only"), format!("QUERY z WHERE dd {op} \"{lit}\"")));
+            }
+            qs.push((format!("sincedd|{day}|date only"), format!("QUERY z SINCE \"{lit}\" USING dd")));
+        }
+        if sname.starts_with("narrow") || sname.starts_with("newyear") {
             for g in grans {
                 qs.push((format!("per|{g}"), format!("QUERY z COUNT PER {g} USING d")));
             }
@@ -224,9 +240,13 @@ pub fn check(tier: &str) -> i32 {
         let obs = r.steps.last().unwrap();
         let all = &obs.replies[0];
         let mut stored: BTreeMap<i64, i64> = BTreeMap::new();
+        let mut stored_dd: BTreeMap<i64, i64> = BTreeMap::new();
         for row in &all.rows {
             if let (Some(id), Some(d)) = (row.get("id").and_then(|v| v.as_i64()), row.get("d").and_then(|v| v.as_i64())) {
                 stored.insert(id, d);
+            }
+            if let (Some(id), Some(d)) = (row.get("id").and_then(|v| v.as_i64()), row.get("dd").and_then(|v| v.as_i64())) {
+                stored_dd.insert(id, d);
             }
         }
         for (i, rs) in rows.iter().enumerate() {
@@ -299,6 +319,23 @@ pub fn check(tier: &str) -> i32 {
                         });
                     }
                 }
+                "wheredd" | "sincedd" => {
+                    let pt: i64 = parts[1].parse().unwrap();
+                    let op = if parts[0] == "sincedd" { ">=" } else { parts[2] };
+                    let mut want: Vec<i64> = stored_dd.iter().filter(|(_, d)| match op { "=" => **d == pt, "<" => **d < pt, _ => **d >= pt }).map(|(id, _)| *id).collect();
+                    want.sort();
+                    if !want.is_empty() && want.len() < stored_dd.len() {
+                        nontrivial += 1;
+                    }
+                    let got = ids_of(rep);
+                    if got.as_ref().ok() != Some(&want) {
+                        let desc = match &got {
+                            Ok(g) => format!("selected {} rows, {} rows have a stored date {op} {pt} (missing {:?}, extra {:?})", g.len(), want.len(), want.iter().filter(|i| !g.contains(i)).take(4).collect::<Vec<_>>(), g.iter().filter(|i| !want.contains(i)).take(4).collect::<Vec<_>>()),
+                            Err(e) => e.clone(),
+                        };
+                        fails.push(Failing { key: format!("{keyp}|{label}"), digest: crate::golden::digest(&desc), class: if parts[0] == "sincedd" { "SINCE USING dd (date field): bare-date literal".to_string() } else { format!("WHERE dd {op} bare-date literal (date field)") }, detail: json!({"query": text, "result": desc}) });
+                    }
+                }
                 "per" => {
                     let g = parts[1];
                     let mut want: BTreeMap<i64, i64> = BTreeMap::new();
@@ -349,7 +386,7 @@ pub fn check(tier: &str) -> i32 {
         coverage: json!({
             "evaluations": judged,
             "distinct_nontrivial": nontrivial,
-            "rule": "instants {-86401, -1, 0, 1, 59, 3599, 3600, 86399, 86400, 999999999, 1e9, 99999999999, 1.7e9, 4e9} (memory) and a cluster around hour / day / week / month boundaries of 2023-11 plus a summer instant (memory and flushed) x spellings {int s/ms/us/ns, the same as strings, float seconds, RFC 3339 with Z, +01:00, -05:30, +14:00, fractional seconds .250/.500/.750/.999999, float seconds + 0.7, milliseconds + 700} on four sites: (1) STORE payload of a datetime field (and a date field) - the value read back must be the instant's epoch second; (2) SINCE \"<spelling>\" USING d; (3) WHERE d <op> <literal> for all six operators with epoch-second, millisecond, RFC 3339 and fractional RFC 3339 literals; (4) COUNT PER {HOUR..YEAR} USING d; sites 2-4 are judged against the values the system itself returns for the rows; configurations timezone x week start; distinct_nontrivial = STORE cases + probes whose expected answer is a proper non-empty subset + PER probes",
+            "rule": "instants {-86401, -1, 0, 1, 59, 3599, 3600, 86399, 86400, 999999999, 1e9, 99999999999, 1.7e9, 4e9} (memory) and a cluster around hour / day / week / month boundaries of 2023-11 plus a summer instant (memory and flushed), and days around New Year of several years, a leap day and year ends (memory) x spellings {int s/ms/us/ns, the same as strings, float seconds, RFC 3339 with Z, +01:00, -05:30, +14:00, fractional seconds .250/.500/.750/.999999, float seconds + 0.7, milliseconds + 700} on four sites: (1) STORE payload of a datetime field (and a date field) - the value read back must be the instant's epoch second; (2) SINCE \"<spelling>\" USING d; (3) WHERE d <op> <literal> for all six operators, and bare-date literals against the `date` field dd on the WHERE and SINCE paths with epoch-second, millisecond, RFC 3339 and fractional RFC 3339 literals; (4) COUNT PER {HOUR..YEAR} USING d; sites 2-4 are judged against the values the system itself returns for the rows; configurations timezone x week start; distinct_nontrivial = STORE cases + probes whose expected answer is a proper non-empty subset + PER probes",
             "samples": rows_for(&[1_700_000_000]).iter().map(|r| json!({"instant": r.t, "spelling": r.spelling, "sent": r.value})).collect::<Vec<_>>(),
             "configurations": cfgs,
             "failing_cases": failing.len(),
